@@ -336,3 +336,55 @@ pub fn self_check(w: &StmWorld) -> Result<(), String> {
     }
     Ok(())
 }
+
+fn cbor_head(major: u8, v: u64, out: &mut Vec<u8>) {
+    let m = major << 5;
+    if v < 24 {
+        out.push(m | v as u8);
+    } else if v <= 0xff {
+        out.extend_from_slice(&[m | 24, v as u8]);
+    } else if v <= 0xffff {
+        out.push(m | 25);
+        out.extend_from_slice(&(v as u16).to_be_bytes());
+    } else if v <= 0xffff_ffff {
+        out.push(m | 26);
+        out.extend_from_slice(&(v as u32).to_be_bytes());
+    } else {
+        out.push(m | 27);
+        out.extend_from_slice(&v.to_be_bytes());
+    }
+}
+
+/// The real CBOR encoding of a single signature (an indefinite-length map because of
+/// `#[serde(flatten)]`) with other indexes / signer index: `01 bf "sigma" [..] "indexes" [..]
+/// "signer_index" n ff`, integers in shortest form as ciborium writes them.
+pub fn sig_cbor_with(real: &[u8], indexes: &[u64], signer_index: u64) -> Vec<u8> {
+    let key = b"\x67indexes";
+    let pos = real.windows(key.len()).position(|w| w == key).expect("indexes key");
+    let mut v = real[..pos + key.len()].to_vec();
+    cbor_head(4, indexes.len() as u64, &mut v);
+    for i in indexes {
+        cbor_head(0, *i, &mut v);
+    }
+    v.extend_from_slice(b"\x6csigner_index");
+    cbor_head(0, signer_index, &mut v);
+    v.push(0xff);
+    v
+}
+
+/// the same world with every integer field at a u64 extreme (well-formed values of the types;
+/// the group elements are kept): encode/decode must be lossless on them too
+pub fn extreme_parts(p: &AggParts) -> AggParts {
+    let mut q = p.clone();
+    for (i, (s, r)) in q.sps.iter_mut().enumerate() {
+        s.indexes = vec![0, 23, 24, 255, 256, 65_536, 1 << 32, (1 << 53) + 1, u64::MAX - i as u64];
+        s.signer_index = u64::MAX - i as u64;
+        s.cbor = sig_cbor_with(&s.cbor, &s.indexes, s.signer_index);
+        r.stake = u64::MAX - 7 * i as u64;
+    }
+    q
+}
+
+pub fn extreme_avk(p: &AvkParts) -> AvkParts {
+    AvkParts { root: p.root.clone(), nr_leaves: (1 << 53) + 1, total_stake: u64::MAX }
+}
